@@ -88,6 +88,23 @@ fn variants(t: &mut Tape, plan: &XzPlan) -> Vec<(XzPlan, String, String)> {
         let mut p = plan.clone();
         p.blocks[bi].filters = vec![(0x03, vec![0]), (0x04, vec![]), (0x21, vec![22])];
         v.push((p, "filter_before_lzma2".to_string(), "delta + x86 BCJ + LZMA2".to_string()));
+        // LZMA2 whose "size of properties" is not 1: with that many property bytes
+        // present, and with the field merely claiming more than the header has left
+        for k in [0u64, 2, 3, 4, 5, 6, 7, 8, 11, 12, 0x7F, 0x80, 1 << 32] {
+            if k <= 12 {
+                let mut p = plan.clone();
+                p.blocks[bi].filters = vec![(0x21, vec![22u8; k as usize])];
+                v.push((p, "lzma2_props_size".to_string(), format!("LZMA2 filter with {} property bytes in block {}", k, bi)));
+            }
+            if k > 1 {
+                for pad in [0u32, 1, 2] {
+                    let mut p = plan.clone();
+                    p.blocks[bi].ov_props_size = Some(k);
+                    p.blocks[bi].extra_pad4 = pad;
+                    v.push((p, "lzma2_props_size".to_string(), format!("LZMA2 filter declaring {} property bytes with 1 present and {} extra padding words, in block {}", k, pad, bi)));
+                }
+            }
+        }
         for bit in [0x04u8, 0x08, 0x10, 0x20, 0x3C] {
             let mut p = plan.clone();
             p.blocks[bi].flags_or = bit;
@@ -176,7 +193,7 @@ impl Property for C18 {
         "fault_enumeration"
     }
     fn rule(&self) -> &'static str {
-        "per seeded valid file (0-6 blocks, check None/CRC32/CRC64) every unsupported feature is substituted in turn with all CRCs, check-field sizes and SHA-256 values consistent: the 13 other check IDs, filter IDs 0x00-0x0B/0x20/0x22/0x4000000000000000-range/random alone and in front of LZMA2, each reserved block-flag bit, reserved stream-flag bits in header+footer / header only / footer only, a second stream, stream padding; one evaluation = one such file through xz_decompress, which must return Err; every variant is distinct (scenario hash) and non-trivial by construction; enumeration is complete per file for the listed feature table"
+        "per seeded valid file (0-6 blocks, check None/CRC32/CRC64) every unsupported feature is substituted in turn with all CRCs, check-field sizes and SHA-256 values consistent: the 13 other check IDs, filter IDs 0x00-0x0B/0x20/0x22/0x4000000000000000-range/random alone and in front of LZMA2, LZMA2 with a size-of-properties other than 1 (present, or merely declared beyond what the header has left), each reserved block-flag bit, reserved stream-flag bits in header+footer / header only / footer only, a second stream, stream padding; one evaluation = one such file through xz_decompress, which must return Err; every variant is distinct (scenario hash) and non-trivial by construction; enumeration is complete per file for the listed feature table"
     }
     fn runs(&self, tier: Tier) -> u64 {
         match tier {
@@ -212,6 +229,7 @@ impl Property for C18 {
                 "filter_alone" => "fault.fired.unsupported_filter_alone",
                 "filter_before_lzma2" => "fault.fired.unsupported_filter_before_lzma2",
                 "filter_after_lzma2" => "fault.fired.unsupported_filter_after_lzma2",
+                "lzma2_props_size" => "fault.fired.lzma2_properties_of_another_size",
                 "reserved_block_flag" => "fault.fired.reserved_block_flag",
                 "reserved_stream_flag" => "fault.fired.reserved_stream_flag",
                 "second_stream" => "fault.fired.second_stream",
